@@ -533,12 +533,18 @@ class C19(Prop):
 
     def shrink_candidates(self, case):
         p = case.payload
+        # scenarios are named by their position and a `reproduce` step carries a copy of the steps it replays: while
+        # one scenario refers to another, no scenario is dropped and the scenarios referred to stay as they are
+        refs = set(st[1][1] for sc in p['scenarios'] for st in sc
+                   if len(st) > 1 and isinstance(st[1], list) and len(st[1]) > 1 and st[1][0] == 'reproduce')
         for i in range(len(p['scenarios']) - 1, -1, -1):
-            if len(p['scenarios']) > 1:
+            if len(p['scenarios']) > 1 and not refs:
                 q = copy.deepcopy(p)
                 del q['scenarios'][i]
                 yield q
         for i, sc in enumerate(p['scenarios']):
+            if 's%d' % i in refs:
+                continue
             for j in range(len(sc) - 1, -1, -1):
                 q = copy.deepcopy(p)
                 del q['scenarios'][i][j]
